@@ -16,6 +16,22 @@ def clause_versions(r, cls, n):
     return out
 
 
+# valid versions of some schemes that look like the shorthand of a neighbouring notation (x-ranges, wildcards)
+LOOKALIKES = ["1.0.0-beta.x", "2.0.0-rc.X", "3.0.0+build.x", "1.2.3-0.x", "1.0.0-x", "1.2.x", "1.x", "1.0.0-alpha.*", "1.2.*", "1.0.0-beta.x.1", "x.1.2"]
+
+
+def lookalikes(cls):
+    out = []
+    for t in LOOKALIKES:
+        try:
+            v = cls(t)
+            if str(cls(str(v))) == str(v):
+                out.append(t)
+        except Exception:  # noqa
+            pass
+    return out
+
+
 def sp(r):
     return r.choice(["", "", " ", "  "])
 
@@ -66,6 +82,14 @@ def run(ctx):
         vtexts = clause_versions(r, rcls.version_class, 12)
         if len(vtexts) < 4:
             continue
+        # ---- fixed shapes: one clause (and a two-clause interval) over every version that looks like another notation's shorthand
+        for v in lookalikes(rcls.version_class):
+            for k, c in vr.vers_by_github_native_comparators.items():
+                if c:
+                    check("github", scheme, rcls, f"{k} {v}", [(c, v)], lambda: vr.build_range_from_github_advisory_constraint(scheme, f"{k} {v}"))
+            for k, c in vr.vers_by_snyk_native_comparators.items():
+                if c:
+                    check("snyk-space", scheme, rcls, f"{k}{v}", [(c, v)], lambda: vr.build_range_from_snyk_advisory_string(scheme, f"{k}{v}"))
         for _ in range(nexpr):
             n = r.randint(1, 4)
             vt = r.sample(vtexts, min(n, len(vtexts)))
@@ -120,6 +144,11 @@ def run(ctx):
         keys = [k for k, v in table.items() if v]
         vtexts = clause_versions(r, rcls.version_class, 12)
         sep = "," if purl == "pypi" else " "
+        for v in lookalikes(rcls.version_class):
+            for k in keys:
+                for e in (k + v, k + sep + v, k + v + "||" + k + vtexts[0]):
+                    cl_ = [(table[k], v)] + ([(table[k], vtexts[0])] if "||" in e else [])
+                    check(f"gitlab-{gscheme}", purl, rcls, e, cl_, lambda: vr.from_gitlab_native(gscheme, e))
         for _ in range(nexpr):
             n = r.randint(1, 4)
             vt = r.sample(vtexts, min(n, len(vtexts)))
